@@ -608,6 +608,10 @@ class Loader:
                     self.remove_app(appname)
             else:
                 restored_apps.append(appname)
+                if app.placement_expiry != expires:
+                    # Lease was re-evaluated, publish the new expiry.
+                    data['expires'] = app.placement_expiry
+                    self.backend.put(appnode, data)
                 if restore_identity and identity is not None:
                     _LOGGER.info('Restore identity %s => %s',
                                  appname, identity)
